@@ -158,6 +158,24 @@ func buildCorpus() {
 	corpus = append(corpus, corpusEntry{name: "any-ptr/RequestHeader", value: &a2, target: func() any { return &kmip.RequestHeader{} }})
 	hdr := &kmip.RequestHeader{ProtocolVersion: kmip.V1_4, BatchCount: 1, ClientCorrelationValue: "ccv", AttestationCapableIndicator: &t}
 	corpus = append(corpus, corpusEntry{name: "bare-header/1.4", value: hdr, target: func() any { return &kmip.RequestHeader{} }})
+	// attribute lists that carry the same structured attribute more than once (pointer fields, slices): decoding the
+	// second occurrence must neither change the first nor inherit from it, within a message and across messages
+	for i := 0; i < 3; i++ {
+		n1, n2, c1, c2 := int32(10+i), int32(20+i), int64(100+i), int64(200+i)
+		tr, fa := true, false
+		attrs := []kmip.Attribute{
+			{AttributeName: kmip.AttributeNameCryptographicParameters, AttributeValue: kmip.CryptographicParameters{BlockCipherMode: kmip.BlockCipherModeGCM, RandomIV: &tr, SaltLength: &n1, InitialCounterValue: &n1}},
+			{AttributeName: kmip.AttributeNameUsageLimits, AttributeValue: kmip.UsageLimits{UsageLimitsTotal: 1000, UsageLimitsCount: &c1, UsageLimitsUnit: kmip.UsageLimitsUnitByte}},
+			{AttributeName: kmip.AttributeNameCertificateSubject, AttributeValue: kmip.CertificateSubject{CertificateSubjectDistinguishedName: fmt.Sprintf("CN=a%d", i), CertificateSubjectAlternativeName: []string{fmt.Sprintf("alt-%d-1", i), fmt.Sprintf("alt-%d-2", i)}}},
+			{AttributeName: kmip.AttributeNameCryptographicParameters, AttributeValue: kmip.CryptographicParameters{BlockCipherMode: kmip.BlockCipherModeCBC, RandomIV: &fa, SaltLength: &n2, TrailerField: &n2}},
+			{AttributeName: kmip.AttributeNameUsageLimits, AttributeValue: kmip.UsageLimits{UsageLimitsTotal: 2000, UsageLimitsCount: &c2, UsageLimitsUnit: kmip.UsageLimitsUnitObject}},
+			{AttributeName: kmip.AttributeNameCertificateSubject, AttributeValue: kmip.CertificateSubject{CertificateSubjectDistinguishedName: fmt.Sprintf("CN=b%d", i), CertificateSubjectAlternativeName: []string{fmt.Sprintf("alt-%d-3", i)}}},
+		}
+		msg := &kmip.ResponseMessage{Header: kmip.ResponseHeader{ProtocolVersion: kmip.V1_4, TimeStamp: fixedTime(), BatchCount: 1},
+			BatchItem: []kmip.ResponseBatchItem{{Operation: kmip.OperationGetAttributes, ResultStatus: kmip.ResultStatusSuccess,
+				ResponsePayload: &payloads.GetAttributesResponsePayload{UniqueIdentifier: fmt.Sprintf("id-%d", i), Attribute: attrs}}}}
+		corpus = append(corpus, corpusEntry{name: fmt.Sprintf("repeated-attributes/%d", i), value: msg, target: func() any { return &kmip.ResponseMessage{} }})
+	}
 	// text strings that need escaping in the XML / JSON / text forms (quotes, backslashes, control characters,
 	// non-ASCII, long): several different ones, so that concurrent encodes cannot pass for each other
 	for i, txt := range []string{"say \"hello\" \\ twice", "n\u00e4me-\u00fcnicode-\u4e2d\u6587", "ctrl-\x01-\x1f-\x7f-tab\tnl\n", strings.Repeat("<&>'\"", 40), "plain-but-long-" + strings.Repeat("x", 300)} {
